@@ -1,0 +1,60 @@
+//go:build verif
+
+package migrate
+
+import (
+	"bufio"
+	"fmt"
+	"os"
+	"sort"
+	"strings"
+	"testing"
+)
+
+// Verification driver (build tag verif only): reads AddImport histories from
+// $VERIF_OPS ("I path=name path=name ...") and writes, per line, the names
+// returned followed by the sorted Imports() table to $VERIF_OUT.
+func TestVerifDriver(t *testing.T) {
+	in, err := os.Open(os.Getenv("VERIF_OPS"))
+	if err != nil {
+		t.Skip("VERIF_OPS not set")
+	}
+	defer in.Close()
+	out, err := os.Create(os.Getenv("VERIF_OUT"))
+	if err != nil {
+		t.Fatal(err)
+	}
+	defer out.Close()
+	w := bufio.NewWriter(out)
+	defer w.Flush()
+	sc := bufio.NewScanner(in)
+	sc.Buffer(make([]byte, 1<<20), 1<<20)
+	for sc.Scan() {
+		line := strings.TrimSpace(sc.Text())
+		if !strings.HasPrefix(line, "I ") {
+			fmt.Fprintln(w, "BAD")
+			continue
+		}
+		tc := NewTypeConverter(nil)
+		var names []string
+		bad := false
+		for _, op := range strings.Fields(line[2:]) {
+			kv := strings.SplitN(op, "=", 2)
+			if len(kv) != 2 {
+				bad = true
+				break
+			}
+			names = append(names, tc.AddImport(kv[0], kv[1]))
+		}
+		if bad {
+			fmt.Fprintln(w, "BAD")
+			continue
+		}
+		var specs []string
+		for _, s := range tc.Imports() {
+			specs = append(specs, s.Path+"="+s.Name)
+		}
+		sort.Strings(specs)
+		fmt.Fprintf(w, "I %s | %s\n", strings.Join(names, " "), strings.Join(specs, " "))
+	}
+}
